@@ -123,7 +123,6 @@ func runColumns(c *hc.Ctx, n int) {
 // windings in -2..2; the Settle decision on the merged entries (|selfWindings| > 1, the case where
 // NonZero and Positive/Negative differ) comes from the real InResult.
 func runMerges(c *hc.Ctx, n int) {
-	inres := canvas.VerifFuncs["SweepPoint.InResult"].(func(bool, bool, int, int, int, int, int, canvas.FillRule) uint8)
 	for it := 0; it < n; it++ {
 		k := 1 + c.Intn(7)
 		ents := make([]canvas.VerifMergeEnt, k)
@@ -142,19 +141,26 @@ func runMerges(c *hc.Ctx, n int) {
 		rule := c.Intn(4)
 		line := fmt.Sprintf("SMRG %d %s", rule, strings.Join(toks, " "))
 		var out [][6]int
+		var openAfter []bool
+		var keeps []int
 		var prev int
-		if msg := hc.Try(func() { out, prev = canvas.VerifMergeColumn(ents, 0, canvas.FillRule(rule)) }); msg != "" {
+		if msg := hc.Try(func() { out, openAfter, keeps, prev = canvas.VerifMergeColumnOpen(ents, 0, canvas.FillRule(rule)) }); msg != "" {
 			c.Fail("merge:panic", msg, map[string]any{"line": line})
 			continue
 		}
 		var outs []string
 		absorbed := 0
 		for i, r := range out {
-			keep := int(inres(false, ents[i].Open, 0, 0, r[2], r[0], 0, canvas.FillRule(rule)))
+			// keep = the real InResult of the entry's FINAL state (fields and the open flag
+			// mergeOverlapping leaves: 51f64dd clears it on a receiver lying on a closed segment)
+			keep := keeps[i]
 			if r[5] != 7 && r[5] != keep && r[4] == 0 {
 				c.Fail("merge:inResult-stale", "the inResult mergeOverlapping stored differs from InResult of the stored fields", map[string]any{"line": line, "i": i})
 			}
-			outs = append(outs, fmt.Sprintf("%d %d %d %d", r[0], r[2], r[4], keep))
+			if openAfter[i] != ents[i].Open {
+				c.Count("smrg:branch:open-receiver-closed-on-closed-segment")
+			}
+			outs = append(outs, fmt.Sprintf("%d %d %d %d %s", r[0], r[2], r[4], keep, hc.B(openAfter[i])))
 			if i > 0 && r[4] == 1 && !ents[i].Overlapped {
 				absorbed++
 			}
